@@ -382,6 +382,12 @@ func (g *Gen) FindOpts(o *Op) {
 func (g *Gen) IndexSpec() Op {
 	keys := [][]string{{"a"}, {"b"}, {"n.x"}, {"a", "b"}, {"b", "a"}, {"a", "n.x"}, {"n.x", "b"}, {"a", "b", "n.x"}}
 	o := Op{Kind: "idx", Keys: lib.Pick(g.R, keys), Unique: g.R.Chance(1, 4)}
+	if g.R.Chance(1, 12) {
+		// re-create the built-in id index (it then moves to the end of the segment's index list); added after
+		// the seeded change c12b (a positional assumption about the id index) slipped past
+		g.hit("index:id-recreated")
+		return Op{Kind: "idx", Keys: []string{"id"}, Unique: true}
+	}
 	if g.R.Chance(1, 3) {
 		// partial: filters an absent field satisfies ($lt, $ne, $exists false) and filters it does not
 		f := lib.Pick(g.R, []string{"a", "b", "n.x"})
